@@ -528,21 +528,23 @@ class DictReader:
         elif itype == "addressof":
             name = json_instruction["name"]
             ty = self.get_type(json_instruction["type"])
-            src = self.get_value_ref(json_instruction["src"])
+            src = self.get_value_ref(
+                json_instruction["src"], ty=ir.BlobDataTyp(1, 1)
+            )
             instruction = ir.AddressOf(src, name)
             self.register_value(instruction)
         elif itype == "binop":
             name = json_instruction["name"]
             ty = self.get_type(json_instruction["type"])
-            a = self.get_value_ref(json_instruction["a"])
+            a = self.get_value_ref(json_instruction["a"], ty=ty)
             operation = json_instruction["operation"]
-            b = self.get_value_ref(json_instruction["b"])
+            b = self.get_value_ref(json_instruction["b"], ty=ty)
             instruction = ir.Binop(a, operation, b, name, ty)
             self.register_value(instruction)
         elif itype == "unop":
             name = json_instruction["name"]
             ty = self.get_type(json_instruction["type"])
-            a = self.get_value_ref(json_instruction["a"])
+            a = self.get_value_ref(json_instruction["a"], ty=ty)
             operation = json_instruction["operation"]
             instruction = ir.Unop(operation, a, name, ty)
             self.register_value(instruction)
@@ -637,7 +639,7 @@ class DictReader:
         assert value.name not in self.scopes[-1].value_map
         self.scopes[-1].value_map[value.name] = value
 
-    def get_value_ref(self, name, ty=ir.ptr):
+    def get_value_ref(self, name, ty=None):
         """Retrieve reference to a value."""
         for scope in reversed(self.scopes):
             if name in scope.value_map:
@@ -646,8 +648,11 @@ class DictReader:
         else:
             if name in self.undefined_values:
                 value = self.undefined_values[name]
+                if ty is not None:
+                    # This use knows the type of the forward reference
+                    value.ty = ty
             else:
-                value = ir.Undefined(name, ty)
+                value = ir.Undefined(name, ir.ptr if ty is None else ty)
                 self.undefined_values[name] = value
         return value
 
